@@ -230,7 +230,6 @@ struct V2World {
   int owner[MAXW] = {-1, -1};
   int completions[MAXW] = {0, 0};
   bool stop_begun[MAXW] = {false, false};
-  bool check_affinity = false;   // the off-scheduler set_done is reported by ONE scenario (v2_cancel)
   Span wait_span[MAXW];
 
   V2World() { for (int i = 0; i < MAXW; ++i) { ctx[i].id = i; ctx[i].deferred = true; } }
@@ -255,8 +254,11 @@ struct V2World {
     if (value && !log.maybe_set(log.clk.tick())) rt::fail("v2 waiter %d completed with value although the event was never set", k);
     if (!value && !stop_begun[k]) rt::fail("v2 waiter %d completed with done although stop was never requested", k);
     if (value && (rt::self() != owner[k] || ctx[k].running == 0)) rt::fail("v2 waiter %d completed with value outside its scheduler", k);
-    if (!value && check_affinity && rt::self() != owner[k])
+    // regression monitor of the repaired defect (tools/checks/c16_repair.patch): set_done of a cancelled
+    // wait used to run inline on the thread that called request_stop()
+    if (!value && rt::self() != owner[k])
       rt::fail("v2 wait completed with done off the waiter's scheduler thread (is_always_scheduler_affine claimed)");
+    else if (!value && ctx[k].running == 0) rt::fail("v2 waiter %d completed with done outside its scheduler", k);
     rt::obs(value ? "value%d" : "done%d", k);
     rt::point("in-completion");
     ctx[k].signal.fetch_add(1, std::memory_order_acq_rel);   // wake the owner if it waits
@@ -409,7 +411,7 @@ SCENARIO(v2_set_reset) {
 }
 
 SCENARIO(v2_cancel) {
-  V2World w; w.check_affinity = true;
+  V2World w;
   int t1 = rt::spawn([&] { w.wait<true>(0); });
   int t2 = rt::spawn([&] { w.stop(0); });
   rt::join(t2);
